@@ -204,56 +204,7 @@ def run(chk, facts_dir, tier):
                 chk.fail("R4.2", r, "record-writer:" + fn, "%s is called outside WriterSet::handle_write: records can be written without the event/commit protocol" % fn, b, b.term(bi)["line"])
 
     # ---------------- R4.5
-    nb = prog.bodies.get("sierradb::bucket::iter::BucketIter::<C>::next_batch::{closure#0}")
-    if nb is None:
-        raise Inconclusive("BucketIter::next_batch coroutine not found")
-    chk.analysed(nb.path)
-    nev = Ev(prog, nb)
-    n_ret = 0
-    for i, j, s in nb.assigns():
-        rv = s["rv"]
-        if s["lhs"]["l"] == 0 and not s["lhs"]["p"] and rv["k"] == "agg" and rv["ak"].endswith("Result::Ok"):
-            term = nev.operand(rv["ops"][0], (i, j))
-            # Ok(None) is fine; Ok(Some(batch)) must flow from filter_commit
-            somes = [x for x in walk(term) if isinstance(x, tuple) and x and x[0] == "agg" and x[1] == "adt:std::option::Option::Some"]
-            if not somes:
-                continue
-            n_ret += 1
-            from ..gate import Classifier
-            cls = Classifier(prog, lambda t: False, lambda t: False)
-            filt = cls.deep(term, lambda x: isinstance(x, tuple) and x and x[0] == "call" and "filter_commit" in x[1])
-            buffered = any(isinstance(x, tuple) and x and x[0] in ("field", "upvar") and ("batch" == (x[2] if x[0] == "field" else x[1].split(".")[-1])) for x in walk(term))
-            if filt:
-                chk.ok("R4.5", "returned batch is built by filter_map(filter_commit)", nb.where(s["line"]))
-            elif buffered:
-                chk.ok("R4.5", "returned batch is the buffered remainder (self.batch); its writers are checked below", nb.where(s["line"]))
-            else:
-                chk.fail("R4.5", "sierradb::bucket::iter::BucketIter::<C>::next_batch", "unfiltered-batch", "a batch is returned that did not pass IterConfig::filter_commit (events of other streams leak into stream scans): %s" % show(term)[:100], nb, s["line"])
-    # writers of BucketIter.batch: only from next_batch results or empty
-    from ..util import field_stores
-    for b in prog.bodies.values():
-        if not b.path.startswith("sierradb::bucket::iter::"):
-            continue
-        e2 = None
-        vals = []
-        for i, j, s in field_stores(b, "batch", "bucket::iter::BucketIter"):
-            e2 = e2 or Ev(prog, b)
-            vals.append((e2._rvalue(s["rv"], (i, j), 0), s["line"]))
-        for i, j, s in b.assigns():
-            if s["rv"]["k"] == "agg" and s["rv"]["ak"] == "adt:sierradb::bucket::iter::BucketIter" and "batch" in s["rv"]["fields"]:
-                e2 = e2 or Ev(prog, b)
-                vals.append((e2.operand(s["rv"]["ops"][s["rv"]["fields"].index("batch")], (i, j)), s["line"]))
-        for term, line in vals:
-            term = resolve_upvars(prog, term, b)
-            ok = any(isinstance(x, tuple) and x and x[0] == "call" and (x[1].endswith("VecDeque::<T>::new") or x[1].endswith("::next_batch") or "next_batch" in x[1]) for x in walk(term))
-            if not ok:
-                # the awaited next_batch future: the value comes from Future::poll of next_batch's coroutine
-                ok = any(isinstance(x, tuple) and x and x[0] == "call" and "next_batch" in x[1] for x in walk(term)) or "next_batch" in show(term)
-            if ok:
-                chk.ok("R4.5", "BucketIter.batch written from next_batch output or empty (%s)" % b.path.split("::")[-2], b.where(line))
-            else:
-                chk.fail("R4.5", b.root or b.path, "batch-writer", "the buffered batch is filled from something other than next_batch's (filtered) result: %s" % show(term)[:100], b, line)
-    chk.floor("R4.5", n_ret, 1)
+    stream_filter_applied(chk, prog, "R4.5")
 
     # ---------------- R4.6
     allp = Program(facts_dir)
@@ -336,3 +287,57 @@ def _reach_to(body, target):
         seen.add(b)
         st.extend(pred[b])
     return seen
+
+
+def stream_filter_applied(chk, prog, rule):
+    """every batch returned by BucketIter::next_batch went through IterConfig::filter_commit (C04 R4.5, C03 R3.1)"""
+    nb = prog.bodies.get("sierradb::bucket::iter::BucketIter::<C>::next_batch::{closure#0}")
+    if nb is None:
+        raise Inconclusive("BucketIter::next_batch coroutine not found")
+    chk.analysed(nb.path)
+    nev = Ev(prog, nb)
+    n_ret = 0
+    for i, j, s in nb.assigns():
+        rv = s["rv"]
+        if s["lhs"]["l"] == 0 and not s["lhs"]["p"] and rv["k"] == "agg" and rv["ak"].endswith("Result::Ok"):
+            term = nev.operand(rv["ops"][0], (i, j))
+            # Ok(None) is fine; Ok(Some(batch)) must flow from filter_commit
+            somes = [x for x in walk(term) if isinstance(x, tuple) and x and x[0] == "agg" and x[1] == "adt:std::option::Option::Some"]
+            if not somes:
+                continue
+            n_ret += 1
+            from ..gate import Classifier
+            cls = Classifier(prog, lambda t: False, lambda t: False)
+            filt = cls.deep(term, lambda x: isinstance(x, tuple) and x and x[0] == "call" and "filter_commit" in x[1])
+            buffered = any(isinstance(x, tuple) and x and x[0] in ("field", "upvar") and ("batch" == (x[2] if x[0] == "field" else x[1].split(".")[-1])) for x in walk(term))
+            if filt:
+                chk.ok(rule, "returned batch is built by filter_map(filter_commit)", nb.where(s["line"]))
+            elif buffered:
+                chk.ok(rule, "returned batch is the buffered remainder (self.batch); its writers are checked below", nb.where(s["line"]))
+            else:
+                chk.fail(rule, "sierradb::bucket::iter::BucketIter::<C>::next_batch", "unfiltered-batch", "a batch is returned that did not pass IterConfig::filter_commit (events of other streams leak into stream scans): %s" % show(term)[:100], nb, s["line"])
+    # writers of BucketIter.batch: only from next_batch results or empty
+    from ..util import field_stores
+    for b in prog.bodies.values():
+        if not b.path.startswith("sierradb::bucket::iter::"):
+            continue
+        e2 = None
+        vals = []
+        for i, j, s in field_stores(b, "batch", "bucket::iter::BucketIter"):
+            e2 = e2 or Ev(prog, b)
+            vals.append((e2._rvalue(s["rv"], (i, j), 0), s["line"]))
+        for i, j, s in b.assigns():
+            if s["rv"]["k"] == "agg" and s["rv"]["ak"] == "adt:sierradb::bucket::iter::BucketIter" and "batch" in s["rv"]["fields"]:
+                e2 = e2 or Ev(prog, b)
+                vals.append((e2.operand(s["rv"]["ops"][s["rv"]["fields"].index("batch")], (i, j)), s["line"]))
+        for term, line in vals:
+            term = resolve_upvars(prog, term, b)
+            ok = any(isinstance(x, tuple) and x and x[0] == "call" and (x[1].endswith("VecDeque::<T>::new") or x[1].endswith("::next_batch") or "next_batch" in x[1]) for x in walk(term))
+            if not ok:
+                # the awaited next_batch future: the value comes from Future::poll of next_batch's coroutine
+                ok = any(isinstance(x, tuple) and x and x[0] == "call" and "next_batch" in x[1] for x in walk(term)) or "next_batch" in show(term)
+            if ok:
+                chk.ok(rule, "BucketIter.batch written from next_batch output or empty (%s)" % b.path.split("::")[-2], b.where(line))
+            else:
+                chk.fail(rule, b.root or b.path, "batch-writer", "the buffered batch is filled from something other than next_batch's (filtered) result: %s" % show(term)[:100], b, line)
+    chk.floor(rule, n_ret, 1)
